@@ -142,6 +142,22 @@ func cmdCheck(args []string) {
 	}
 	genS := time.Since(t0).Seconds() - loadS
 	order := []int{0, 1, 2}
+	// quick tier: only the claimed obligations (and listed findings, and the vacuity guards that were
+	// satisfiable on the baseline) are attempted; everything else is reported as not attempted
+	notAttempted := 0
+	if *tier == "quick" && !*writeClaims {
+		var sel []*OblResult
+		for _, r := range all {
+			if claims[r.Obl.Name] {
+				sel = append(sel, r)
+			} else if _, isKnown := known[r.Obl.Name]; isKnown {
+				sel = append(sel, r)
+			} else {
+				notAttempted++
+			}
+		}
+		all = sel
+	}
 	solveAll(all, timeout, *workers, order)
 	byName := map[string]*OblResult{}
 	for _, r := range all {
@@ -162,6 +178,9 @@ func cmdCheck(args []string) {
 			if r.Status == "discharged" && t <= limit {
 				names = append(names, r.Obl.Name)
 			}
+			if r.Status == "cover-ok" && r.Res.Time <= 2.0 {
+				names = append(names, r.Obl.Name)
+			}
 		}
 		sort.Strings(names)
 		os.MkdirAll(filepath.Join(*vdir, "claims"), 0o755)
@@ -176,6 +195,7 @@ func cmdCheck(args []string) {
 	bySolver := map[string]int{}
 	solverTime := 0.0
 	var undecided, newFailing, knownLines []string
+	coversChecked := 0
 	coverOK := true
 	var coverFail []string
 	coverUnknown := 0
@@ -226,7 +246,7 @@ func cmdCheck(args []string) {
 				report(name, "contract-no-longer-matches-code: "+firstLine(e), nil)
 				continue
 			}
-			if panicKinds[kind] {
+			if panicKinds[kind] || kind == "cover" {
 				// the indexed expression no longer exists: nothing to prove for it
 				claimedN--
 				continue
@@ -239,6 +259,12 @@ func cmdCheck(args []string) {
 			discharged++
 			bySolver[r.Res.Solver]++
 			solverTime += r.Res.Time
+		case "cover-ok", "cover-unknown":
+			// vacuity guard that was satisfiable on the baseline: not a proof obligation
+			claimedN--
+			coversChecked++
+		case "cover-fail":
+			claimedN--
 		default:
 			if f, isKnown := known[name]; isKnown {
 				knownLines = append(knownLines, fmt.Sprintf("KNOWN-FINDING: property=%s %s [%s]", *prop, f.What, name))
@@ -334,6 +360,8 @@ func cmdCheck(args []string) {
 			"cover_ok":              coverOK,
 			"cover_unreachable":     coverFail,
 			"cover_inconclusive":    coverUnknown,
+			"covers_checked":        coversChecked,
+			"unclaimed_not_attempted_in_quick_tier": notAttempted,
 			"samples":               samples,
 			"abstracted":            ab,
 			"residual_not_decided":  cfg.Residual,
